@@ -21,11 +21,16 @@
   `sound_partial` / `infallible_partial`: the same statements outside the decidable finding classes
   `soundClass` / `errClass`.
 -/
-import VrlProofs.Lemmas.C03Tags
+import VrlProofs.Lemmas.C03Coll
 
 namespace C03
 open Spec
 open Str (R)
+
+/-- kind-bit side conditions on concrete masks -/
+macro "mask_tac" : tactic =>
+  `(tactic| simp [hasBit, kindBit, Fn.returnMask, mBytes, mInteger, mFloat, mBoolean, mObject, mArray,
+      mTimestamp, mRegex, mNull])
 
 /-! ### statements -/
 
@@ -198,5 +203,269 @@ theorem prim_sound (E : Env) (F : Fn) (t : Tag) (h : F.primTag = some t) : Sound
   have hm := mem_tag_kind ht hp
   rw [decl_kind c.decl, hd.1, hd.2, hm.2]
   exact ⟨memR_of_mem hm.1, by cases t <;> first | rfl | (simp at hp)⟩
+
+/-! ### group 2: `abs floor ceil round` keep the numeric kind of their argument -/
+
+theorem numKind_sound {k0 : Kind} {v r : Value} (hm : mem v k0 = true) (hn : (tagOf v).isNum = true)
+    (ht : tagOf r = tagOf v) :
+    memR r (if (k0.isFloat || k0.isInteger) = true then k0 else intOrFloat) = true ∧
+      hasBit (mInteger + mFloat) (kindBit r) = true := by
+  refine ⟨memR_of_mem ?_, num_bit (by rw [ht]; exact hn)⟩
+  split
+  · rw [mem_num_congr k0 hn ht]; exact hm
+  · exact mem_intOrFloat (by rw [ht]; exact hn)
+
+/-- **`abs`, `floor`, `ceil`, `round`: an integer stays an integer, a float a float; the result is in
+    the argument's own kind when that is exactly `integer` or `float`, in `integer | float` otherwise.** -/
+theorem num_sound (E : Env) (F : Fn) (hF : F = .abs ∨ F = .floor ∨ F = .ceil ∨ F = .round) :
+    Sound E F := by
+  intro as vs td c r hr
+  rw [decl_kind c.decl]
+  rcases hF with rfl | rfl | rfl | rfl <;> simp only [model] at hr
+  · obtain ⟨v, rfl, hr⟩ := un_ok hr
+    obtain ⟨hn, ht⟩ := abs_pres hr
+    exact numKind_sound (head_mem c) hn ht
+  · obtain ⟨v, o, rfl, hr⟩ := un1_ok hr
+    obtain ⟨hn, ht⟩ := roundFn_pres hr
+    exact numKind_sound (head_mem c) hn ht
+  · obtain ⟨v, o, rfl, hr⟩ := un1_ok hr
+    obtain ⟨hn, ht⟩ := roundFn_pres hr
+    exact numKind_sound (head_mem c) hn ht
+  · obtain ⟨v, o, rfl, hr⟩ := un1_ok hr
+    obtain ⟨hn, ht⟩ := roundFn_pres hr
+    exact numKind_sound (head_mem c) hn ht
+
+/-! ### group 3: collections -/
+
+/-- **`array(v)` / `object(v)`: the value itself, in the array (object) part of the argument kind.** -/
+theorem array_sound (E : Env) : Sound E .array := by
+  intro as vs td c r hr
+  rw [decl_kind c.decl]
+  simp only [model] at hr
+  obtain ⟨v, rfl, hr⟩ := un_ok hr
+  obtain ⟨rfl, ht⟩ := assertV_ok hr
+  obtain ⟨xs, rfl⟩ := tag_array ht
+  exact ⟨memR_of_mem (mem_arr_restrictArray xs _ (head_mem c)), by mask_tac⟩
+
+theorem object_sound (E : Env) : Sound E .object := by
+  intro as vs td c r hr
+  rw [decl_kind c.decl]
+  simp only [model] at hr
+  obtain ⟨v, rfl, hr⟩ := un_ok hr
+  obtain ⟨rfl, ht⟩ := assertV_ok hr
+  obtain ⟨m, rfl⟩ := tag_object ht
+  exact ⟨memR_of_mem (mem_obj_restrictObject m _ (head_mem c)), by mask_tac⟩
+
+/-- **`pop`: sound when every known index of the argument's array kind may be absent** (in
+    particular for `any` and for arrays without known indices). `type_def` keeps the argument kind
+    unchanged although the last element is gone: `witness_pop`. -/
+theorem pop_sound_partial (E : Env) (as : ASlots) (vs : Slots) (td : TD) (c : Call .pop as vs td)
+    (hk : (arrayCol (akind as 0)).knownOptional = true) : SoundAt E .pop as vs td := by
+  intro r hr
+  rw [decl_kind c.decl]
+  simp only [model] at hr
+  obtain ⟨v, rfl, hr⟩ := un_ok hr
+  obtain ⟨xs, rfl, rfl⟩ := popV_ok hr
+  refine ⟨memR_of_mem ?_, by mask_tac⟩
+  have hm := head_mem c
+  rw [mem_arr_iff] at hm
+  obtain ⟨col, hcol, h1, _⟩ := hm
+  simp only [declaredFn]
+  rw [mem_arr_iff]
+  refine ⟨col, by rw [restrictArray, hcol]; rfl, ?_, ?_⟩
+  · intro j x hj
+    exact h1 j x (getN_popList xs j x hj)
+  · intro k K' hg _
+    have : arrayCol (akind as 0) = col := by rw [arrayCol, hcol]
+    rw [this] at hk
+    exact KList.all_of_get _ _ hk k K' hg
+
+/-- **`split`: an array of strings** (string or regex pattern, any limit). -/
+theorem split_sound (E : Env) : Sound E .split := by
+  intro as vs td c r hr
+  rw [decl_kind c.decl]
+  simp only [model] at hr
+  obtain ⟨a, b, o, rfl, hr⟩ := bin1_ok hr
+  obtain ⟨ys, rfl, h⟩ := splitV_ok hr
+  exact ⟨memR_of_mem (mem_arr_bytesCol ys h), by mask_tac⟩
+
+/-- **`keys`: an array of strings.** -/
+theorem keys_sound (E : Env) : Sound E .keys := by
+  intro as vs td c r hr
+  rw [decl_kind c.decl]
+  simp only [model] at hr
+  obtain ⟨v, rfl, hr⟩ := un_ok hr
+  obtain ⟨ys, rfl, h⟩ := keys_ok hr
+  refine ⟨memR_of_mem ?_, by mask_tac⟩
+  simp only [declaredFn, keysCol_eq]
+  exact mem_arr_bytesCol ys h
+
+/-- **`unique`, `to_entries` return some array; `from_entries`, `unflatten` some object.** -/
+theorem anyColl_sound (E : Env) (F : Fn)
+    (hF : F = .unique ∨ F = .toEntries ∨ F = .fromEntries ∨ F = .unflatten) : Sound E F := by
+  intro as vs td c r hr
+  rw [decl_kind c.decl]
+  rcases hF with rfl | rfl | rfl | rfl <;> simp only [model] at hr
+  · obtain ⟨v, rfl, hr⟩ := un_ok hr
+    have ht := unique_ok hr
+    obtain ⟨xs, rfl⟩ := tag_array ht
+    exact ⟨memR_of_mem (mem_arr_anyArray xs), by mask_tac⟩
+  · obtain ⟨v, rfl, hr⟩ := un_ok hr
+    have ht := toEntries_ok hr
+    obtain ⟨xs, rfl⟩ := tag_array ht
+    exact ⟨memR_of_mem (mem_arr_anyArray xs), by mask_tac⟩
+  · obtain ⟨v, rfl, hr⟩ := un_ok hr
+    have ht := fromEntries_ok hr
+    obtain ⟨m, rfl⟩ := tag_object ht
+    exact ⟨memR_of_mem (mem_obj_anyObject m), by mask_tac⟩
+  · obtain ⟨v, o1, o2, rfl, hr⟩ := un2_ok hr
+    have ht := unflattenV_ok hr
+    obtain ⟨m, rfl⟩ := tag_object ht
+    exact ⟨memR_of_mem (mem_obj_anyObject m), by mask_tac⟩
+
+theorem not_mem_arr_of_isObjectish {xs : VList} {k : Kind} (h : k.hasArr = false) :
+    mem (.arr xs) k = false := by
+  cases k with
+  | mk p a o => cases a <;> simp_all [mem, Kind.hasArr]
+
+theorem tag_array_of_isArray {v : Value} {k : Kind} (hk : k.isArray = true) (hm : mem v k = true) :
+    tagOf v = .array := by
+  cases k with
+  | mk p a o =>
+    simp only [Kind.isArray, Kind.prim, Bool.and_eq_true, Bool.not_eq_true'] at hk
+    obtain ⟨hp, ho⟩ := hk
+    have hp' : p = {} := by
+      cases p; simp only [Prim.isEmpty] at hp; simp_all
+    subst hp'
+    cases v <;> first | rfl | (simp [mem, Kind.prim] at hm)
+    · cases o <;> simp_all [mem, Kind.hasObj]
+
+/-- **`compact` / `flatten`: an array stays an array, an object an object; the declared kind is
+    `array` only when the argument kind is exactly an array and `object` otherwise, so the result is
+    in the declared kind whenever the argument kind is exactly an array or has no array state.**
+    For an argument that may be an array *or* something else (`.p`): `witness_compact`,
+    `witness_flatten`. -/
+theorem compact_flatten_sound_partial (E : Env) (F : Fn) (hF : F = .compact ∨ F = .flatten)
+    (as : ASlots) (vs : Slots) (td : TD) (c : Call F as vs td)
+    (hk : (akind as 0).isArray = true ∨ (akind as 0).hasArr = false) : SoundAt E F as vs td := by
+  intro r hr
+  rw [decl_kind c.decl]
+  have key : ∀ v, mem v (akind as 0) = true →
+      ((∃ m m', v = .obj m ∧ r = .obj m') ∨ (∃ xs ys, v = .arr xs ∧ r = .arr ys)) →
+      memR r (if (akind as 0).isArray = true then anyArray else anyObject) = true ∧
+        hasBit (mObject + mArray) (kindBit r) = true := by
+    intro v hm hs
+    rcases hs with ⟨m, m', rfl, rfl⟩ | ⟨xs, ys, rfl, rfl⟩
+    · refine ⟨memR_of_mem ?_, by mask_tac⟩
+      split
+      · rename_i hi
+        have := tag_array_of_isArray hi hm
+        simp [tagOf] at this
+      · exact mem_obj_anyObject m'
+    · refine ⟨memR_of_mem ?_, by mask_tac⟩
+      rcases hk with hi | hn
+      · simp only [hi, if_true]; exact mem_arr_anyArray ys
+      · rw [not_mem_arr_of_isObjectish hn] at hm; cases hm
+  rcases hF with rfl | rfl <;> simp only [model] at hr
+  · obtain ⟨v, o1, o2, o3, o4, o5, o6, rfl, hr⟩ := un6_ok hr
+    exact key v (head_mem c) (compact_ok hr)
+  · obtain ⟨v, o1, o2, rfl, hr⟩ := un2_ok hr
+    exact key v (head_mem c) (flattenV_ok hr)
+
+/-- **`slice`: a string gives a string, an array an array. The declared kind is the argument kind
+    itself when that is exactly `bytes` or exactly an array, so for arrays the result is in the
+    declared kind when the array kind has no known index** (the elements move to other indices;
+    `type_def` re-uses the input collection: `witness_slice`). Sound without condition for strings
+    and for arguments that are not exactly an array (`.p`). -/
+theorem slice_sound_partial (E : Env) (as : ASlots) (vs : Slots) (td : TD) (c : Call .slice as vs td)
+    (hk : (akind as 0).isBytes = true ∨ (akind as 0).isArray = false ∨
+      (arrayCol (akind as 0)).known = .nil) : SoundAt E .slice as vs td := by
+  intro r hr
+  rw [decl_kind c.decl]
+  simp only [model] at hr
+  obtain ⟨v, st, o, rfl, hr⟩ := bin1_ok hr
+  have hm := head_mem c
+  simp only [declaredFn]
+  rcases slice_ok hr with ⟨b, b', rfl, rfl⟩ | ⟨xs, i, n, rfl, rfl⟩
+  · -- a string
+    refine ⟨memR_of_mem ?_, by mask_tac⟩
+    by_cases hb : (akind as 0).isBytes = true
+    · simp only [hb, if_true, mem_bytes, never_union_prim]; exact hm
+    · by_cases ha : (akind as 0).isArray = true
+      · have := tag_array_of_isArray ha hm
+        simp [tagOf] at this
+      · simp only [hb, ha, if_false, Bool.false_eq_true]; rfl
+  · -- an array
+    refine ⟨memR_of_mem ?_, by mask_tac⟩
+    by_cases hb : (akind as 0).isBytes = true
+    · rw [not_mem_arr_of_isObjectish (hasArr_false_of_isBytes hb)] at hm; cases hm
+    · by_cases ha : (akind as 0).isArray = true
+      · simp only [hb, ha, if_true, if_false, Bool.false_eq_true]
+        have hkn : (arrayCol (akind as 0)).known = .nil := by
+          rcases hk with h | h | h
+          · exact absurd h hb
+          · rw [ha] at h; cases h
+          · exact h
+        have hm' := hm
+        rw [mem_arr_iff] at hm'
+        obtain ⟨col, hcol, _, _⟩ := hm'
+        have hac : arrayCol (akind as 0) = col := by rw [arrayCol, hcol]
+        rw [hac] at hkn
+        apply mem_arr_of_noKnown _ _ col (by rw [never_union_array]; exact hcol) hkn
+        intro j x hj
+        exact mem_elem_of_noKnown hm hcol hkn (getN_slice xs i n j x hj)
+      · simp only [hb, ha, if_false, Bool.false_eq_true]
+        rw [mem_arr_congr _ (K := (Kind.never.orBytes).orArray Col.any) (K' := anyArray) rfl]
+        exact mem_arr_anyArray _
+
+theorem mod_kind (as : ASlots) :
+    (declaredFn .mod as).kind =
+      (match aconst as 1 with
+       | some (.float _) => Kind.float
+       | some (.int _) => Kind.integer
+       | _ => Kind.float.orInteger) := by
+  simp only [declaredFn]
+  cases aconst as 1 with
+  | none => split <;> split <;> rfl
+  | some w => cases w <;> split <;> split <;> rfl
+
+theorem mem_floatOrInt {v : Value} (hn : (tagOf v).isNum = true) : mem v Kind.float.orInteger = true := by
+  cases v <;> simp [tagOf, Tag.isNum] at hn <;> rfl
+
+/-- **`mod`: with a float literal as modulus the result is a float, with a runtime-typed modulus an
+    integer or a float; with an INTEGER literal as modulus the declared kind is `integer`, which
+    holds when the dividend's kind is exactly `integer`** (`mod(0.1, 1)` is a float: `witness_mod`). -/
+theorem mod_sound_partial (E : Env) (as : ASlots) (vs : Slots) (td : TD) (c : Call .mod as vs td)
+    (hk : ∀ i, aconst as 1 = some (.int i) → (akind as 0).isInteger = true) :
+    SoundAt E .mod as vs td := by
+  intro r hr
+  rw [decl_kind c.decl, mod_kind]
+  simp only [model] at hr
+  obtain ⟨v, m, rfl, hr⟩ := bin_ok hr
+  obtain ⟨hmn, hvn, hf, hi⟩ := tryRem_ok hr
+  have hm := head_mem c
+  obtain ⟨a0, as', rfl, _, hadm⟩ := admits_cons c.adm
+  obtain ⟨a1, as'', rfl, ha1, _⟩ := admits_cons hadm
+  have hrn : (tagOf r).isNum = true := by
+    cases m <;> simp [tagOf, Tag.isNum] at hmn
+    · rw [hi rfl]; exact hvn
+    · rw [hf rfl]; rfl
+  refine ⟨memR_of_mem ?_, num_bit hrn⟩
+  cases a1 with
+  | dyn k => simp only [aconst, List.getElem?_cons_succ, List.getElem?_cons_zero, Arg.const]; exact mem_floatOrInt hrn
+  | lit w =>
+    simp only [Arg.admits, decide_eq_true_eq] at ha1
+    subst ha1
+    simp only [aconst, List.getElem?_cons_succ, List.getElem?_cons_zero, Arg.const]
+    cases m <;> simp [tagOf, Tag.isNum] at hmn
+    · -- integer literal
+      rename_i i _
+      have hki := hk i (by simp [aconst, Arg.const])
+      have hv := tag_of_isInteger hki hm
+      have hr' := hi rfl
+      rw [hv] at hr'
+      cases r <;> simp [tagOf] at hr'; rfl
+    · have hr' := hf rfl
+      cases r <;> simp [tagOf] at hr'; rfl
 
 end C03
